@@ -1,3 +1,3 @@
 SPECIFICATION Spec
-INVARIANTS DefaultFilterIsStdException NonStdAlwaysPropagates RefEqSymmetric RoundTrip Emit
+INVARIANTS DefaultFilterIsStdException NonStdAlwaysPropagates RefEqSymmetric NullWritesNothing RoundTrip Emit
 CHECK_DEADLOCK FALSE
